@@ -150,8 +150,10 @@ func idleByDesign(g goroutine) (bool, string) {
 	if len(g.Frames) > 0 {
 		all := true
 		for _, f := range g.Frames {
-			fn := strings.TrimPrefix(f.Fn, "created by ")
-			if !strings.HasPrefix(fn, "runtime.") && !strings.HasPrefix(fn, "runtime/") {
+			if strings.HasPrefix(f.Fn, "created by ") {
+				continue // e.g. "created by unique.runtime_registerUniqueMapCleanup"
+			}
+			if !strings.HasPrefix(f.Fn, "runtime.") && !strings.HasPrefix(f.Fn, "runtime/") {
 				all = false
 			}
 		}
